@@ -160,6 +160,15 @@ def item_alts(ctx, item):
                 cats |= set(re.findall(r'=(\w+)', labs[i]))
             ok = len(en) == 1 and len(st) == 1 and 'Defined' in labs[en[0]] and 'Enum' in labs[en[0]] and 'Defined' in labs[st[0]] and 'Type' in labs[st[0]] \
                 and all(parts[i].strip() == '' for i in rest) and cats == {'Predefined', 'Extern'} and not any('Defined' in re.findall(r'=(\w+)', labs[i]) for i in rest)
+        if not ok and len(parts) == 2 and len(labs) == 2 and getattr(ctx, 'items_defined_only', False):
+            # no branch on the category here: items without a Rust definition never reach this function, because the loop that
+            # writes the module takes only `category() == Defined` (C14-D5|all-items-written saw that filter, and only that one)
+            en = [i for i, p_ in enumerate(parts) if ' enum ' in p_]
+            st = [i for i, p_ in enumerate(parts) if ' struct ' in p_ and i not in en]
+            ok = len(en) == 1 and len(st) == 1 and 'Enum' in labs[en[0]] and 'Type' in labs[st[0]]
+            if ok:
+                # later rules address the alternatives as [enum, struct, nothing, nothing]
+                parts = [parts[en[0]], parts[st[0]], '', '']
         item.parts = parts
     ctx.ob(['C14', 'C13'], 'R-MATCH', 'item|categories', ok, 'a Defined type emits a struct, a Defined enum an enum, Predefined and Extern items emit nothing: %s' % [str(x)[:60] for x in det], loc(item.f.span))
 
